@@ -257,4 +257,85 @@ theorem falsy_set_differs_from_readme :
     envTruthyDoc (some "no") = true ∧ envTruthyImpl (some "no") = false := by
   decide
 
+/-! ### every way of loading: justfiles reached through `set fallback` -/
+
+/-- **every justfile loaded on the way up is gated**: when a recipe found through `set fallback`
+runs, the justfile that holds it and every justfile tried before it passed the gate -/
+theorem fallback_every_level_gated (flag : Bool) (env : Option String) :
+    ∀ (levels : List Level) (k0 k : Nat), runFallback flag env levels k0 = .ran k →
+      k0 ≤ k ∧ ∀ j (hj : j < levels.length), j ≤ k - k0 → proceeds flag env .run (levels[j]).root = true := by
+  intro levels
+  induction levels with
+  | nil => intro k0 k h; simp [runFallback] at h
+  | cons l rest ih =>
+    intro k0 k h
+    simp only [runFallback] at h
+    split at h
+    · cases h
+    · rename_i hp
+      have hp' : proceeds flag env .run l.root = true := by simpa using hp
+      split at h
+      · have : k0 = k := by simpa using h
+        subst this
+        refine ⟨Nat.le_refl _, ?_⟩
+        intro j hj hle
+        have : j = 0 := by omega
+        subst this
+        simpa using hp'
+      · split at h
+        · obtain ⟨hle, hall⟩ := ih (k0 + 1) k h
+          refine ⟨by omega, ?_⟩
+          intro j hj hjk
+          cases j with
+          | zero => simpa using hp'
+          | succ j =>
+            have := hall j (by simpa using hj) (by omega)
+            simpa using this
+        · cases h
+
+/-- **a parent justfile that uses an unstable feature without the opt-in is refused, and nothing
+runs** — also when it is only reached because the justfiles below it lack the recipe and have
+`set fallback` (their own `set unstable` does not count for it) -/
+theorem fallback_parent_refused (flag : Bool) (env : Option String) :
+    ∀ (below : List Level) (parent : Level) (above : List Level) (k0 : Nat),
+      (∀ l ∈ below, proceeds flag env .run l.root = true ∧ l.hasRecipe = false ∧ l.fallback = true) →
+      proceeds flag env .run parent.root = false →
+      runFallback flag env (below ++ parent :: above) k0 = .refused (k0 + below.length) := by
+  intro below
+  induction below with
+  | nil => intro parent above k0 _ hp; simp [runFallback, hp]
+  | cons l rest ih =>
+    intro parent above k0 hb hp
+    have hl := hb l (by simp)
+    simp only [List.cons_append, runFallback, hl.1, hl.2.1, hl.2.2]
+    have := ih parent above (k0 + 1) (fun l' hl' => hb l' (List.mem_cons_of_mem _ hl')) hp
+    simp only [Bool.not_true, Bool.false_eq_true, if_false, if_true, this, List.length_cons]
+    congr 1
+    omega
+
+/-- and stable justfiles are never refused on the way up -/
+theorem fallback_stable_never_refused (flag : Bool) (env : Option String) :
+    ∀ (levels : List Level) (k0 : Nat),
+      (∀ l ∈ levels, ∀ m', InTree l.root m' → m'.features = []) →
+      ∀ k, runFallback flag env levels k0 ≠ .refused k := by
+  intro levels
+  induction levels with
+  | nil => intro k0 _ k h; simp [runFallback] at h
+  | cons l rest ih =>
+    intro k0 hst k h
+    have hp : proceeds flag env .run l.root = true := by
+      have := stable_never_gated (optIn flag env .run) l.root (hst l (by simp))
+      simp [proceeds, this]
+    simp only [runFallback, hp, Bool.not_true, Bool.false_eq_true, if_false] at h
+    split at h
+    · cases h
+    · split at h
+      · exact ih (k0 + 1) (fun l' hl' => hst l' (List.mem_cons_of_mem _ hl')) k h
+      · cases h
+
+/-- non-vacuity: child with `set fallback` and `set unstable`, parent using `[script]` -/
+example : runFallback false none
+    [⟨.mk [] false false true [], false, true⟩, ⟨.mk [] true false false [], true, false⟩] 0 = .refused 1 := by
+  decide
+
 end Just.Props.C19
